@@ -433,6 +433,11 @@ def _budget_and_storage(run, prog, cls):
     run.check(ok, "BUDGET", f"{cls.name}.model-calls", inc.where(s.fn.lineno), fq, f"evaluation structure: {why or '1 + d*n'}",
               f"one explain_one call must evaluate the model once directly and call the imputer once per feature with "
               f"n inner samples (1 + d*n evaluations): {why}", "#model = 1 + d * n on the explain path, 0 on the first call")
+    sticky = [ev for ev, _ in walk(s.events) if isinstance(ev, ir.Store) and ev.field == "n_inner_samples"]
+    run.check(not sticky, "BUDGET", f"{cls.name}.n-override", inc.where(sticky[0].line if sticky else s.fn.lineno), fq,
+              "explain_one overwrites self.n_inner_samples",
+              "a per-call n_inner_samples override is written to the configured attribute: later calls without an override "
+              "evaluate the model 1 + d * (stale n) times", "per-call n is not written back")
     # default imputer: MarginalImputer on the explainer's own model, one model call per inner sample
     init = prog.summarise(cls, "__init__")
     t = init.fields.get(inc.imf)
